@@ -430,16 +430,37 @@ type storedCh struct {
 	Snap    string
 	Size    int
 	Raw     []byte
+	AddSeq  uint64
 }
 
 func (r *replica) stored() ([]storedCh, error) {
 	var res []storedCh
 	err := r.st.GetAfterOrder(r.e.ctx, "", func(ctx context.Context, c objecttree.StorageChange) (bool, error) {
 		res = append(res, storedCh{Id: c.Id, OrderId: c.OrderId, Prev: append([]string(nil), c.PrevIds...), Snap: c.SnapshotId,
-			Size: len(c.RawChange), Raw: append([]byte(nil), c.RawChange...)})
+			Size: len(c.RawChange), Raw: append([]byte(nil), c.RawChange...), AddSeq: c.AddSeq})
 		return true, nil
 	})
 	return res, err
+}
+
+// addSeqViews returns, for the sequence number n, the ids Storage.GetAfterAddSeq(n) and
+// ObjectTree.IterateAfterAddSeq(n) present (the incremental views of consumers that remember the
+// last add sequence they processed).
+func (r *replica) addSeqViews(n uint64) (fromStorage, fromTree []string, err error) {
+	err = r.st.GetAfterAddSeq(r.e.ctx, n, func(ctx context.Context, c objecttree.StorageChange) (bool, error) {
+		fromStorage = append(fromStorage, c.Id)
+		return true, nil
+	})
+	if err != nil {
+		return nil, nil, err
+	}
+	r.tree.Lock()
+	defer r.tree.Unlock()
+	err = r.tree.IterateAfterAddSeq(r.e.ctx, n, nil, func(c *objecttree.Change) bool {
+		fromTree = append(fromTree, c.Id)
+		return true
+	})
+	return fromStorage, fromTree, err
 }
 
 func (r *replica) storedHeads() []string {
